@@ -11,8 +11,8 @@
 
 enum { K_EXEC = 1, K_RET = 9, K_TID = 2 };
 
-static int counts[3][16]; // [region][element]
-static int tidcounts[3][8];
+static int counts[6][16]; // [region][element]
+static int tidcounts[6][8];
 VF_NOINSTR static void hit(int region, int e) { counts[region][e]++; }
 VF_NOINSTR static void hit_tid(int region, int t) { tidcounts[region][t]++; }
 
@@ -164,7 +164,7 @@ static void oneach_case(std::vector<int> topo, std::vector<int> actives) {
   }
   // nothing of an earlier region may be logged after its return marker
   int n = vf_log_count();
-  int returned[4] = {0};
+  int returned[8] = {0};
   for (int i = 0; i < n; ++i) {
     const vf_log_entry* e = vf_log_get(i);
     if (e->kind == K_RET)
@@ -242,8 +242,9 @@ int main(int argc, char** argv) {
   add_oe({3}, {3, 2}, 1, 2);
   add_oe({3}, {1, 3}, 1, 2);
   add_oe({2, 1}, {3, 2, 3}, 1, 2);
-  add_oe({4}, {4, 2}, -1, 2);
+  add_oe({4}, {4, 2}, 1, 2); // a leaf of the 2-thread tree had children at 4
   add_oe({2, 2}, {4, 3}, -1, 2);
+  add_oe({4}, {4, 2, 4, 2}, 0, 1);
   add_oe({1, 1, 1, 1}, {2, 4}, -1, 2);
   return vf_main(argc, argv, "C03", cases);
 }
